@@ -1,6 +1,15 @@
 import RjModel.Model.Parse
 import RjModel.Generated.Constants
+import RjModel.Model.Chunks
 open Rj
+
+def chunkCfg? : Option ChunkCfg := do
+  let f ← Generated.firstChunk; let g ← Generated.chunkGrowth
+  let m ← Generated.maxChunk; let s ← Generated.smallBuf
+  pure ⟨f, g, m, s⟩
+
+def renderLens (l : List (Nat × Bool)) : String :=
+  "[" ++ joinWith ";" (l.map fun (n, m) => s!"{n},{if m then 1 else 0}") ++ "]"
 
 def handle (line : String) : String :=
   match tokens line with
@@ -8,6 +17,10 @@ def handle (line : String) : String :=
     match P.run P.scenario rest with
     | some sc => (run ⟨Generated.filterWrapPre, Generated.filterWrapPost⟩ sc).render sc.answers.length
     | none => "bad-op"
+  | ["chunks", len] =>
+    match chunkCfg?, len.toNat? with
+    | some k, some n => renderLens (readFileLens k n [])
+    | _, _ => "bad-op"
   | _ => "bad-op"
 
 partial def loop (h : IO.FS.Stream) (out : IO.FS.Stream) : IO Unit := do
